@@ -30,7 +30,15 @@ fn pool() -> Vec<(&'static str, Value)> {
             _ => Value::scalar(format!("{}.5", i)),
         })
         .collect();
+    let arrobj: Vec<Value> = (0..3)
+        .map(|i| {
+            let mut o = Object::new();
+            o.insert(if i == 2 { "p".into() } else { "k".into() }, Value::scalar(2 - i as i64));
+            Value::Object(o)
+        })
+        .collect();
     vec![
+        ("arrobj", Value::Array(arrobj)),
         ("arr40n", Value::Array(mixed_num)),
         ("ampuni", Value::scalar("\u{6771}\u{4eac} & \u{65e5}\u{672c}\u{8a9e} &lt\u{e9} &amp;\u{65e5} &#39\u{e9}\u{1f600}&quot")),
         ("hugenum", Value::scalar("1455616800000000")),
@@ -92,6 +100,26 @@ pub fn run(ctx: &mut Ctx) {
                     let args = [pool[*i].1.clone(), pool[*j].1.clone()];
                     let obs = apply(&lang, name, input, &args);
                     ctx.emit(filter_case("c02f", &format!("f2:{}", ik), name, input, &args, &obs));
+                }
+            }
+        }
+    }
+    // jekyll's `sort` has the stdlib filter's name: a language of its own, oracle only
+    {
+        let mut jek = liquid_core::parser::Language::empty();
+        let t: Box<dyn liquid_core::ParseFilter> = liquid_lib::jekyll::Sort.into();
+        jek.filters.register("sort".to_owned(), t);
+        for (ik, input) in &pool {
+            let obs = apply(&jek, "sort", input, &[]);
+            ctx.emit(filter_case("c02f", &format!("f0:{}", ik), "jekyll_sort", input, &[], &obs));
+            for (_, a) in &pool {
+                let args = [a.clone()];
+                let obs = apply(&jek, "sort", input, &args);
+                ctx.emit(filter_case("c02f", &format!("f1:{}", ik), "jekyll_sort", input, &args, &obs));
+                for nils in ["first", "last", "x"] {
+                    let args = [a.clone(), Value::scalar(nils)];
+                    let obs = apply(&jek, "sort", input, &args);
+                    ctx.emit(filter_case("c02f", &format!("f2:{}", ik), "jekyll_sort", input, &args, &obs));
                 }
             }
         }
